@@ -28,7 +28,10 @@ ID = 'C17'
 NAMESPACE = 'VL.C17'
 LEAN_MODULES = ['VotelibProofs.Props.C17']
 GEN_MODULES = ['Divisor', 'RankScore']
-REQUIRED = ['ha_house_monotone', 'ha_house_monotone_general', 'ha_vote_monotone_partial']
+REQUIRED = ['ha_house_monotone', 'ha_house_monotone_general', 'ha_vote_monotone_partial',
+            'additive_winner_monotone', 'additive_winner_monotone_new', 'plurality_monotone_switch', 'plurality_monotone_new',
+            'scorer_monotone', 'positional_monotone_lift', 'positional_monotone_new', 'approval_monotone_approve',
+            'approval_monotone_new', 'score_sum_monotone_raise', 'score_sum_monotone_new']
 NAMES = Names(prefix='c')
 PNAMES = Names(prefix='p')
 DIVISORS = ['d_hondt', 'sainte_lague', 'imperiali', 'danish', 'macau']
